@@ -18,10 +18,11 @@ MAX_STATES = 20000
 
 
 class Num:
-    __slots__ = ("lo", "hi", "ty", "aff", "sym", "chr")
+    __slots__ = ("lo", "hi", "ty", "aff", "sym", "chr", "tag")
 
-    def __init__(self, lo, hi, ty, aff=None, sym=None, chr=False):
+    def __init__(self, lo, hi, ty, aff=None, sym=None, chr=False, tag=None):
         self.lo, self.hi, self.ty, self.aff, self.sym, self.chr = lo, hi, ty, aff, sym, chr
+        self.tag = tag      # ("call", function name, ordinal): the unchanged result of a call of an external function
 
     def __repr__(self):
         s = "[%d, %d]:%s%d" % (self.lo, self.hi, "i" if self.ty[0] else "u", self.ty[1])
@@ -30,7 +31,7 @@ class Num:
         return s
 
     def with_range(self, lo, hi):
-        return Num(lo, hi, self.ty, self.aff, self.sym, self.chr)
+        return Num(lo, hi, self.ty, self.aff, self.sym, self.chr, self.tag)
 
 
 class Ptr:
@@ -55,6 +56,7 @@ class State:
         self.ret = None
         self.returned = False
         self.stores = []
+        self.defcond = {}       # (frame, name) of a flag -> (comparison it was defined by, names the comparison reads)
 
     def copy(self):
         s = State()
@@ -65,6 +67,7 @@ class State:
         s.frame, s.nframes = self.frame, self.nframes
         s.ret, s.returned = self.ret, self.returned
         s.stores = list(self.stores)
+        s.defcond = dict(self.defcond)
         return s
 
 
@@ -155,6 +158,11 @@ class Analysis:
             return self.refine(c["inner"][0], s, not truth)
         if c.get("kind") == "DeclRefExpr":
             key = self.lookup(s, c["referencedDecl"]["name"])
+            dc = s.defcond.get(key)
+            if dc is not None:
+                s = self.refine(dc[0], s, truth)
+                if s is None:
+                    return None
             v = s.vars.get(key)
             if isinstance(v, Num):
                 cv = self.cur(s, v)
@@ -207,6 +215,31 @@ class Analysis:
             return s
         return s
 
+    def _refine_split(self, cond, s, truth):
+        """the refined states of one branch: `x != c` (or the false branch of `x == c`) with c strictly inside the range of x is two
+        intervals, so two states"""
+        c = _strip(cond)
+        neq = c.get("kind") == "BinaryOperator" and ((c.get("opcode") == "!=" and truth) or (c.get("opcode") == "==" and not truth))
+        if neq:
+            l, r = _strip(c["inner"][0]), _strip(c["inner"][1])
+            if r.get("kind") == "DeclRefExpr" and l.get("kind") != "DeclRefExpr":
+                l, r = r, l
+            rv = self.const_of(r, s) if l.get("kind") == "DeclRefExpr" else None
+            if rv is not None:
+                key = self.lookup(s, l["referencedDecl"]["name"])
+                v = s.vars.get(key)
+                cv = self.cur(s, v) if isinstance(v, Num) else None
+                if cv is not None and cv.lo < rv < cv.hi:
+                    out = []
+                    for lo_, hi_ in ((cv.lo, rv - 1), (rv + 1, cv.hi)):
+                        s2 = s.copy()
+                        if self.refine_num(s2, v, lo_, hi_):
+                            s2.vars[key] = v.with_range(max(v.lo, lo_), min(v.hi, hi_))
+                            out.append(s2)
+                    return out
+        st = self.refine(cond, s.copy(), truth)
+        return [st] if st is not None else []
+
     def const_of(self, n, s):
         n = _strip(n)
         if n.get("kind") == "IntegerLiteral":
@@ -218,6 +251,10 @@ class Analysis:
         if n.get("kind") == "UnaryOperator" and n.get("opcode") == "-":
             c = self.const_of(n["inner"][0], s)
             return -c if c is not None else None
+        if n.get("kind") == "BinaryOperator" and n.get("opcode") in ("+", "-", "*"):
+            a, b = self.const_of(n["inner"][0], s), self.const_of(n["inner"][1], s)
+            if a is not None and b is not None:
+                return a + b if n["opcode"] == "+" else (a - b if n["opcode"] == "-" else a * b)
         return None
 
     def lookup(self, s, name):
@@ -246,6 +283,11 @@ class Analysis:
             return [(st, Num(v, v, tyinfo(n["type"]["qualType"]) or (True, 32)))]
         if k == "CharacterLiteral":
             return [(st, Num(n["value"], n["value"], (True, 32)))]
+        if k == "StringLiteral":
+            return [(st, ("opaque", "string"))]        # only handed on to external functions
+        if k == "UnaryExprOrTypeTraitExpr":
+            t_ = tyinfo(n["type"]["qualType"]) or (False, 64)
+            return [(st, Num(0, (1 << 31) - 1, t_))]     # sizeof / alignof: some non-negative size
         if k == "CXXBoolLiteralExpr":
             b = 1 if n.get("value") else 0
             return [(st, Num(b, b, (False, 1)))]
@@ -323,6 +365,7 @@ class Analysis:
                 rt = a.ty if isinstance(a, Num) else None
                 for s2, r in self.binop(op, a, b, s, n, result_ty=rt):
                     s3 = s2.copy()
+                    s3.defcond = {k_: dc_ for k_, dc_ in s3.defcond.items() if k_ != key and not (k_[0] == key[0] and key[1] in dc_[1])}
                     s3.vars[key] = r
                     out.append((s3, r))
             return out
@@ -362,6 +405,7 @@ class Analysis:
             v = st.vars[key]
             d = -1 if op == "--" else 1
             s = st.copy()
+            s.defcond = {k_: dc_ for k_, dc_ in s.defcond.items() if k_ != key and not (k_[0] == key[0] and key[1] in dc_[1])}
             if isinstance(v, Ptr):
                 nv = Ptr(v.base, v.lo + d, v.hi + d)
             else:
@@ -429,7 +473,7 @@ class Analysis:
                 return [(s, Num(1, 1, t))]
             return [(s, Num(0, 1, t))]
         if lo <= v.lo and v.hi <= hi:
-            return [(s, self._abs_sym(s, Num(v.lo, v.hi, t, v.aff, v.sym, v.chr)))]
+            return [(s, self._abs_sym(s, Num(v.lo, v.hi, t, v.aff, v.sym, v.chr, v.tag)))]
         if not t[0]:
             Mx = 1 << t[1]
             out = []
@@ -577,6 +621,8 @@ class Analysis:
             if tgt["kind"] == "DeclRefExpr":
                 key = self.lookup(s, tgt["referencedDecl"]["name"])
                 s2 = s.copy()
+                nm_ = tgt["referencedDecl"]["name"]
+                s2.defcond = {k_: dc_ for k_, dc_ in s2.defcond.items() if k_ != key and not (k_[0] == key[0] and nm_ in dc_[1])}
                 if isinstance(v, Num):
                     old = s2.vars.get(key)
                     ty = old.ty if isinstance(old, Num) else v.ty
@@ -587,7 +633,7 @@ class Analysis:
                             s4.vars[key] = v3
                             out.append((s4, v3))
                         continue
-                    v = Num(v.lo, v.hi, ty, v.aff, v.sym, v.chr)
+                    v = Num(v.lo, v.hi, ty, v.aff, v.sym, v.chr, v.tag)
                 s2.vars[key] = v
                 out.append((s2, v))
             elif tgt["kind"] == "UnaryOperator" and tgt["opcode"] == "*":
@@ -654,7 +700,9 @@ class Analysis:
                     N = s.arrays.get(p.base)
                     self.ob("write-length", ln.lo >= 0 and p.lo >= 0 and N is not None and p.hi + ln.hi <= N,
                             "write(%r, len %r) must stay inside %s[%s]" % (p, ln, p.base[1], N), n)
-            out.append((s, Num(-1, 1 << 62, (True, 64))))
+            rt = tyinfo((n.get("type") or {}).get("qualType") or "") or (True, 64)
+            lo_, hi_ = trange(rt)
+            out.append((s, Num(lo_, hi_, rt, tag=("call", fname, len(self.events)))))
         return out
 
     # ---------- statements ----------
@@ -689,8 +737,16 @@ class Analysis:
                         continue
                     inits = [c for c in d.get("inner", []) if c.get("kind") not in ("FullComment",)]
                     if inits:
+                        ci = _strip(inits[-1])
+                        flag_cond = None
+                        if ci.get("kind") == "BinaryOperator" and ci.get("opcode") in ("<", "<=", ">", ">=", "==", "!="):
+                            reads = {x["referencedDecl"]["name"] for x in (_strip(ci["inner"][0]), _strip(ci["inner"][1])) if x.get("kind") == "DeclRefExpr"}
+                            flag_cond = (ci, frozenset(reads))
                         for s2, v in self.ev(inits[-1], s):
                             s3 = s2.copy()
+                            if flag_cond:
+                                # `const bool negative = value < 0;`: branching on the flag later is branching on the comparison
+                                s3.defcond[(s3.frame, d["name"])] = flag_cond
                             if isinstance(v, tuple) and v[0] == "elem":
                                 v = s3.mem.get((v[1].base, v[1].lo), Num(-128, 127, (True, 8)))
                             t = tyinfo(q)
@@ -718,12 +774,10 @@ class Analysis:
             for s in states:
                 for s2, c in self.ev(cond, s):
                     if c.hi >= 1 or c.lo < 0:
-                        st = self.refine(cond, s2.copy(), True)
-                        if st is not None:
+                        for st in self._refine_split(cond, s2, True):
                             out.extend(self.stmt(then, [st]))
                     if c.lo <= 0 <= c.hi:
-                        sf = self.refine(cond, s2.copy(), False)
-                        if sf is not None:
+                        for sf in self._refine_split(cond, s2, False):
                             out.extend(self.stmt(els, [sf]) if els else [sf])
             return out
         if k in ("DoStmt", "WhileStmt", "ForStmt"):
@@ -809,6 +863,8 @@ def analyse_function(fn, fns):
                     first = False
                 else:
                     st.vars[(0, p["name"])] = Num(lo, hi, t)
+            elif p.get("name"):
+                st.vars[(0, p["name"])] = ("opaque", p["name"])     # a pointer parameter: only handed on
     body = [c for c in fn["inner"] if c.get("kind") == "CompoundStmt"][0]
     a.finals = a.stmt(body, [st])
     return a
